@@ -464,6 +464,8 @@ def main(tier, replay):
                     mstats.update({kv.split("=")[0]: int(kv.split("=")[1]) for kv in f[1:]})
                 elif f[0] == "COUNT":
                     classes[f[1]] = int(f[2])
+                elif f[0] == "SENDERPRIM":
+                    stats.setdefault("sender_prims", {})[f[1]] = int(f[2])
                 elif f[0].startswith("MISMATCH"):
                     mism.append(f)
             seqs = read_seqs(trace)
@@ -535,7 +537,7 @@ def main(tier, replay):
                     "that touch PD or the merger",
                samples=samples, traces_validated_against_impl=mstats.get("cases", 0), input_distribution=classes,
                sequences=mstats.get("seqs", 0), store_replies_compared=mstats.get("replies", 0), model_mismatches=len(mism), oracle_failures=len([f for f in fails if not f["finding_class"]]),
-               known_finding_hits=len([f for f in fails if f["finding_class"]]), bucket_lookups=stats.get("bucket_lookups", 0), stuck_rounds=stats.get("stuck_rounds", 0), sender_convergences=stats.get("sender_convs", 0), observations={"bucket_fallback_unclamped": stats.get("obs_bucket_fallback_unclamped", 0)},
+               known_finding_hits=len([f for f in fails if f["finding_class"]]), bucket_lookups=stats.get("bucket_lookups", 0), stuck_rounds=stats.get("stuck_rounds", 0), sender_convergences=stats.get("sender_convs", 0), sender_effects_explained=stats.get("sender_prims", {}), observations={"bucket_fallback_unclamped": stats.get("obs_bucket_fallback_unclamped", 0)},
                convergence_rounds={str(k): n for k, n in sorted(stats["conv_rounds"].items())}, convergence_bound=CONV_BOUND)
     rc = v.finish()
     vlib.write_evidence(PID, cov, t0, violations=len(v.violations), level="proof",
